@@ -446,6 +446,10 @@ def inline_temps(fn, candidates):
             if _clash(_write_roots(s), reads):
                 # a statement that both uses t and rebinds an operand (x = f(t, x)) is fine only if it is the using statement
                 # itself and a plain assignment (right-hand side evaluated first)
+                # (for a binding with calls the using statement is the very next one: its right-hand side, where the name is read,
+                # is evaluated before its own targets are stored)
+                if impure and s is later[0] and isinstance(s, ast.Assign) and any(x is loads[0] for x in ast.walk(s.value)):
+                    continue
                 if not (isinstance(s, (ast.Assign, ast.AugAssign)) and not impure and s is later[last_use] and
                         not any(_clash(_write_roots(z), reads) for z in later[:last_use])):
                     clash = True
